@@ -299,3 +299,75 @@ impl<T: ?Sized + std::fmt::Debug> std::fmt::Debug for Mutex<T> {
         self.0.fmt(f)
     }
 }
+
+/// A virtual clock in place of `std::time::Instant` for orx-parallel's own code: every reading advances the clock by
+/// `CLOCK_STEP_NS` (set per case by the harness: 0 = everything takes no time, 10^9 = every reading is a second later),
+/// so that what the library does with elapsed time is decided by the case, not by the speed of the machine.
+pub mod time {
+    use std::sync::atomic::{AtomicU64, Ordering::SeqCst};
+    use std::time::Duration;
+
+    pub static CLOCK_STEP_NS: AtomicU64 = AtomicU64::new(0);
+    static NOW_NS: AtomicU64 = AtomicU64::new(1_000_000_000);
+    /// number of clock readings (evidence that the library looks at the clock at all)
+    pub static READINGS: AtomicU64 = AtomicU64::new(0);
+
+    pub fn reset(step_ns: u64) {
+        CLOCK_STEP_NS.store(step_ns, SeqCst);
+        NOW_NS.store(1_000_000_000, SeqCst);
+        READINGS.store(0, SeqCst);
+    }
+
+    #[derive(Clone, Copy, Debug, PartialEq, Eq, PartialOrd, Ord, Hash)]
+    pub struct Instant(u64);
+
+    impl Instant {
+        pub fn now() -> Instant {
+            READINGS.fetch_add(1, SeqCst);
+            let step = CLOCK_STEP_NS.load(SeqCst);
+            Instant(NOW_NS.fetch_add(step, SeqCst) + step)
+        }
+        pub fn elapsed(&self) -> Duration {
+            Instant::now().saturating_duration_since(*self)
+        }
+        pub fn duration_since(&self, earlier: Instant) -> Duration {
+            self.saturating_duration_since(earlier)
+        }
+        pub fn saturating_duration_since(&self, earlier: Instant) -> Duration {
+            Duration::from_nanos(self.0.saturating_sub(earlier.0))
+        }
+        pub fn checked_duration_since(&self, earlier: Instant) -> Option<Duration> {
+            self.0.checked_sub(earlier.0).map(Duration::from_nanos)
+        }
+        pub fn checked_add(&self, d: Duration) -> Option<Instant> {
+            self.0.checked_add(d.as_nanos() as u64).map(Instant)
+        }
+        pub fn checked_sub(&self, d: Duration) -> Option<Instant> {
+            self.0.checked_sub(d.as_nanos() as u64).map(Instant)
+        }
+    }
+
+    impl std::ops::Sub<Instant> for Instant {
+        type Output = Duration;
+        fn sub(self, o: Instant) -> Duration {
+            self.saturating_duration_since(o)
+        }
+    }
+    impl std::ops::Add<Duration> for Instant {
+        type Output = Instant;
+        fn add(self, d: Duration) -> Instant {
+            Instant(self.0 + d.as_nanos() as u64)
+        }
+    }
+    impl std::ops::Sub<Duration> for Instant {
+        type Output = Instant;
+        fn sub(self, d: Duration) -> Instant {
+            Instant(self.0.saturating_sub(d.as_nanos() as u64))
+        }
+    }
+    impl std::ops::AddAssign<Duration> for Instant {
+        fn add_assign(&mut self, d: Duration) {
+            self.0 += d.as_nanos() as u64;
+        }
+    }
+}
